@@ -14,7 +14,7 @@ RULE = ("sort expressions composed of Name/Base/Ext/Dir/Size/-Size/Lower/len() a
         "backslashes, digits of differing lengths, non-ASCII), duplicate key values (ties) forced by small pools of "
         "sizes/extensions/base names; directory mode lists with nested paths for the depth sorter; CLI runs where "
         "%Count() numbers the files; stream multiroot_order: runs over 1–3 input directories plus explicit files, the order in "
-        "which names are generated must follow the sort key over all of them; non-trivial = at least one tie or at least 3 files; distinct by the full case")
+        "which names are generated must follow the sort key over all of them; stream depth_real: real directory-mode runs over trees some of whose directories are links to directories higher up (exit 0, each designated directory renamed once, descendants first); non-trivial = at least one tie or at least 3 files; distinct by the full case")
 ASSUMPTIONS = [
     "Python's sorted() is a stable sort (the model is List.mergeSort; both are stable sorts of the same total preorder)",
     "keys are computed by the harness independently (os.stat, PurePosixPath, str.lower) and by the model (Path.lean)",
